@@ -33,7 +33,7 @@ META = {
 }
 RULE = (
     "all (operator form, max_concurrent, arrival pattern, outer terminal, inner timeline tuple) combinations within the bounds; "
-    "non-trivial = >=2 inner subscriptions were opened and >=1 element was forwarded; distinct = the full descriptor; the counter "
+    "non-trivial = by the reference >=2 inner subscriptions are opened and >=1 element is forwarded; distinct = the full descriptor; the counter "
     "cases_with_ties counts executions in which the oracle had to branch over simultaneous events"
 )
 BUDGET = {"quick": 120.0, "thorough": 1300.0}
@@ -235,8 +235,9 @@ def shard(part: core.Part, shard_i, nshards, tier, seed, deadline):
             part.complete = False
             return
         problems, ob, stats = run_case(case)
-        inner_subs = [s for s in ob.subs if s[0] != case["outer"]]
-        nontrivial = len(inner_subs) >= 2 and any(k == "N" for (_, k, _) in ob.out)
+        w = stats["witness"]
+        inner_subs = [s for s in w.sublog if s[0] != case["outer"]]
+        nontrivial = len(inner_subs) >= 2 and any(k == "N" for (_, k, _) in w.out)
         part.case(key_of(case), nontrivial, outcome=seqref.outcome_of(ob),
                   sample={"op": case["op"], "params": case["params"], "sources": case["sources"],
                           "observed": seqref.show_out(ob.out), "subscriptions": seqref.show_subs(ob.subs)})
